@@ -8,7 +8,7 @@ use tackler_core::kernel::Settings;
 use tackler_core::model::TxnData;
 use tackler_core::parser;
 
-fn load(case: &Value, settings: &mut Settings, dir: &Path) -> Result<TxnData, String> {
+pub(crate) fn load(case: &Value, settings: &mut Settings, dir: &Path) -> Result<TxnData, String> {
     if let Some(files) = case.get("files").and_then(|x| x.as_array()) {
         // multi-file input through paths_to_txns
         let d = dir.join("txns");
